@@ -39,6 +39,10 @@ def gen(rng, ctx):
             kind = "hostile"
         except ValueError:
             pass
+    if kind == "plain" and rng.random() < 0.08:
+        cd, tag = G.ambiguous_names(rng, cd)
+        if tag:
+            kind = "ambiguous"
     if rng.random() < 0.3:
         cd = G.shuffle_nodes(rng, cd)
     return {"c": cd, "kind": kind, "via": rng.choice(["graph", "api", "sparse"]), "repeat": rng.random() < 0.2}
